@@ -40,7 +40,19 @@ def gen_cases(tier, seed):
                 d["workload"]["persistent"] = rnd.choice(["Inputs - Intermediates", "All - Intermediates", "Outputs - Intermediates"])
             d["arch"]["mems"][0]["size"] = 2 ** 16 * d["workload"]["bits"]
             cls = d["class"].split("/")[0] + "/persistent"
-        cases.append({"class": cls, "desc": d, "metrics": METRICS[(i // 5 if i % 5 == 4 else i) % len(METRICS)]})
+        metrics = METRICS[(i // 5 if i % 5 == 4 else i) % len(METRICS)]
+        if i % 5 == 2:
+            # DENSE fronts: larger bounds on a tight buffer with a real energy/latency trade-off, so that SEVERAL returned
+            # rows come from the same pmapping template with different tile shapes
+            wk = rnd.choice(["mm1", "mm1", "chain2"])
+            d = gs.gen_spec(rnd, wk, levels=2, size_class="tight", costs="tradeoff")
+            for rv in d["workload"]["ranks"]:
+                d["workload"]["ranks"][rv] = rnd.choice([8, 16] if wk == "mm1" else [8, 8, 16])
+            sizes = sorted(gs.tensor_sizes(d["workload"]).values())
+            d["arch"]["mems"][1]["size"] = rnd.randint(max(8, sizes[0] // 4), max(16, sizes[-1])) * d["workload"]["bits"]
+            cls = wk + "/dense"
+            metrics = rnd.choice(["ENERGY|LATENCY", "ENERGY|LATENCY|RESOURCE_USAGE"])
+        cases.append({"class": cls, "desc": d, "metrics": metrics})
     return cases
 
 
@@ -75,6 +87,9 @@ def run_case(case):
             return {"status": "ok", "counters": counters, "reason": "mapper raised an internal error"}
         data = res.data
         rows = H.result_rows(res)
+        tcols = [c for c in data.columns if c.endswith(H.SEP + "mapping") and not c.startswith("Total")]
+        ids = [tuple(id(data.iloc[k][c]) for c in tcols) for k in range(len(data))]
+        bump("rows_sharing_a_template_object_with_an_earlier_row", len(ids) - len(set(ids)))
         for i, row in enumerate(rows[:12]):
             try:
                 ev = H.eval_tree(d, row["tree"])
